@@ -21,6 +21,10 @@ def run_witness(w):
         if not ok:
             return False, dict(error="stylua binary does not build: " + err[-500:])
         return cli_witness.run_witness(w)
+    if w.get("kind") == "corpusfile":
+        fails, _ = run_corpus([w.get("opts") or {}], [w["column_width"]], only=w["file"])
+        hit = [f for f in fails if f["kind"] == w["fkind"]]
+        return bool(hit), dict(violated=bool(hit), detail=(hit[0]["detail"] if hit else ""), failures=hit)
     with tempfile.TemporaryDirectory(prefix="vxw", dir=os.path.join(ROOT, ".build")) as d:
         f = os.path.join(d, "w.lua")
         open(f, "w").write(w["src"])
@@ -46,6 +50,45 @@ def run_witness(w):
         except Exception:
             j = dict(violated=False, error=(p.stderr or p.stdout)[-2000:])
         return bool(j.get("violated")), j
+
+CORPUS_DIRS = {"inputs": "lua51", "inputs-full_moon": "lua51", "inputs-lua52": "lua52", "inputs-lua53": "lua53", "inputs-lua54": "lua54", "inputs-luau": "luau",
+               "inputs-luau-full_moon": "luau", "inputs-ignore": "lua51", "inputs-collapse-single-statement": "lua51", "inputs-sort-requires": "lua51"}
+_corpus_cache = {}
+
+def corpus_list(only=None):
+    import glob
+    repo = os.environ.get("VX_REPO", "/repo")
+    lines = []
+    for d, syn in CORPUS_DIRS.items():
+        for f in sorted(glob.glob(os.path.join(repo, "tests", d, "*.lua"))):
+            rel = os.path.relpath(f, repo)
+            if only is None or rel == only:
+                lines.append(f"{f}\t{syn}")
+    return lines
+
+def run_corpus(configs, widths, only=None):
+    """the repository's own test inputs under several configurations and column widths, all general oracles.
+    returns (failures, stats); a failure is dict(file (relative), column_width, kind, detail, opts)"""
+    key = json.dumps([configs, widths, only], sort_keys=True)
+    if key in _corpus_cache: return _corpus_cache[key]
+    repo = os.environ.get("VX_REPO", "/repo")
+    fails, stats = [], dict(files=0, runs=0, configs=len(configs), widths=widths)
+    with tempfile.TemporaryDirectory(prefix="vxc", dir=os.path.join(ROOT, ".build")) as d:
+        lst = os.path.join(d, "corpus.lst")
+        open(lst, "w").write("\n".join(corpus_list(only)) + "\n")
+        for opts in configs:
+            args = [BIN, "corpus", lst, "widths=" + ",".join(str(w) for w in widths)] + [f"{k}={v}" for k, v in opts.items()]
+            p = subprocess.run(args, capture_output=True, text=True, timeout=1200)
+            try:
+                j = json.loads(p.stdout)
+            except Exception:
+                raise RuntimeError("corpus run produced no result: " + (p.stderr or p.stdout)[-500:])
+            stats["files"] = j["files"]; stats["runs"] += j["runs"]
+            for f in j["failures"]:
+                f["file"] = os.path.relpath(f["file"], repo); f["opts"] = opts
+                fails.append(f)
+    _corpus_cache[key] = (fails, stats)
+    return fails, stats
 
 def witnesses_for(label, registry):
     if label.endswith(".total"):
@@ -77,7 +120,8 @@ def make_replay(prop, failure, registry):
     if failure.get("scenario"):
         rec["found_input"] = True
         sc = failure["scenario"]
-        rec["failing_input"] = dict(kind=sc.get("kind"), scenario=sc.get("scenario"), src=sc.get("src"), opts=sc.get("opts"), range=sc.get("range"), contains=sc.get("contains"), oracle=sc.get("oracle"), result=failure.get("scenario_result"))
+        rec["failing_input"] = dict(kind=sc.get("kind"), scenario=sc.get("scenario"), src=sc.get("src"), opts=sc.get("opts"), range=sc.get("range"), contains=sc.get("contains"), oracle=sc.get("oracle"), result=failure.get("scenario_result"),
+                                    file=sc.get("file"), column_width=sc.get("column_width"), fkind=sc.get("fkind"))
         last_found_input = True
         json.dump(rec, open(path, "w"), indent=1)
         return path
@@ -116,7 +160,8 @@ def rerun(path):
     ok, err = build()
     if not ok:
         print("cannot build replay crate:", err); return 2
-    v, j = run_witness(dict(src=fi.get("src"), kind=fi.get("kind"), scenario=fi.get("scenario"), opts=fi.get("opts"), range=fi.get("range"), oracle=fi.get("oracle"), contains=fi.get("contains")))
+    v, j = run_witness(dict(src=fi.get("src"), kind=fi.get("kind"), scenario=fi.get("scenario"), opts=fi.get("opts"), range=fi.get("range"), oracle=fi.get("oracle"), contains=fi.get("contains"),
+                            file=fi.get("file"), column_width=fi.get("column_width"), fkind=fi.get("fkind")))
     print(json.dumps(j, indent=1)[:4000])
     print("REPRODUCED" if v else "not reproduced on the current tree")
     return 1 if v else 0
